@@ -171,6 +171,7 @@ def run(report, p):
     # ------------------------------------------------------------------ R9.2
     r2 = report.rule("R9.2", "every 'ERROR:' log in the function that owns the exit-12 decision is followed on every path by an update of a failure signal", 2)
     signal_nodes = set()
+    direct_map_stores = set()
     for n in g.nodes:
         a = n.ast
         if n.kind == "stmt" and isinstance(a, ast.AugAssign) and isinstance(a.op, ast.Add) and "fail" in norm(a.target):
@@ -180,7 +181,24 @@ def run(report, p):
             for t in tg:
                 if t in p.funcs and p.funcs[t].outer is dh and any(isinstance(x, ast.Name) and "fail" in x.id for x in ast.walk(p.funcs[t].node)):
                     signal_nodes.add(n.id)
-    map_signal_nodes = {i for i in signal_nodes if isinstance(g.nodes[i].ast, ast.Expr)}
+        # the per-format failure map written directly (d[fmt] = d.get(fmt, 0) + 1, setdefault / update) or through a helper that
+        # stores into the mapping it is handed
+        if n.kind == "stmt" and isinstance(a, ast.Assign) and any(isinstance(t, ast.Subscript) and isinstance(t.value, ast.Name) and "fail" in t.value.id for t in a.targets):
+            signal_nodes.add(n.id)
+            direct_map_stores.add(n.id)
+        if n.kind == "stmt" and isinstance(a, ast.Expr) and isinstance(a.value, ast.Call):
+            c = a.value
+            if isinstance(c.func, ast.Attribute) and c.func.attr in ("setdefault", "update") and isinstance(c.func.value, ast.Name) and "fail" in c.func.value.id:
+                signal_nodes.add(n.id)
+            for t in [t for c2, ts in p.calls[dh.qual] if c2 is c for t in ts]:
+                hf = p.funcs.get(t)
+                if hf is None or hf.outer is dh:
+                    continue
+                b = p.bind_args(hf, c)
+                for pn, arg in b.items():
+                    if isinstance(arg, ast.Name) and "fail" in arg.id and any(isinstance(x, ast.Assign) and any(isinstance(tt, ast.Subscript) and isinstance(tt.value, ast.Name) and tt.value.id == pn for tt in x.targets) for x in walk_no_nested(hf.node)):
+                        signal_nodes.add(n.id)
+    map_signal_nodes = {i for i in signal_nodes if isinstance(g.nodes[i].ast, ast.Expr)} | direct_map_stores
     flagged_vars = _vars_fed_by_unguarded_recorded_keys(p, pr, dh, g)
     for call, tg in p.calls[dh.qual]:
         if any(t.endswith("logger.error") for t in tg) and call.args:
@@ -230,6 +248,24 @@ def run(report, p):
                 nn = gg.node_for(n)
                 ok = none_guarded(gg, norm(inner), nn) or _same_test_guard(n, inner)
                 r3.check(ok, f, n, f"`{norm(inner)}` can be None (generations written with -n or -sf have no <roothash>) and is dereferenced without a None test: AttributeError on a history the tool itself produced", construct=f"unguarded {norm(n)}")
+
+        # the same through a local alias:  rmh = x.process_info.root_media_hash ... rmh.hash_entries
+        for n in walk_no_nested(f.node):
+            if isinstance(n, ast.Attribute) and isinstance(n.value, ast.Name) and isinstance(n.ctx, ast.Load):
+                nm = n.value
+                if nm.id in f.params:
+                    continue
+                try:
+                    os_ = pr.origins(nm, f)
+                except AnalysisError:
+                    continue
+                if not os_ or not all(o[0] == "attr" and any(o[2] == fld for (_, fld) in nf) for o in os_):
+                    continue
+                if any(any(s2[0] == "attr" and s2[2] == "new_hash_lists" for s2 in subterms(o)) or any(is_call(s2, "class:ascmhl.hashlist.MHLProcessInfo") for s2 in subterms(o)) for o in os_):
+                    continue
+                r3.instance(f, n, norm(n)[:100] + " (alias)")
+                ok = none_guarded(gg, nm.id, gg.node_for(n))
+                r3.check(ok, f, n, f"`{nm.id}` holds `{show(os_[0])[-60:]}`, which can be None (generations written with -n or -sf have no <roothash>), and is dereferenced without a None test: AttributeError on a history the tool itself produced", construct=f"unguarded {norm(n)} (alias of a nullable field)")
 
     # ------------------------------------------------------------------ R9.4
     r4 = report.rule(
@@ -316,7 +352,7 @@ def run(report, p):
                         for sid in map_signal_nodes:
                             sn = g.nodes[sid]
                             if any(tt is t for tt, _ in g.control_deps(sn, transitive=False)):
-                                karg = sn.ast.value.args[0] if sn.ast.value.args else None
+                                karg = _signal_key(p, dh, sn.ast)
                                 if karg is None:
                                     continue
                                 good = all(o[0] == "attr" and o[2] == "hash_format" and sig(o[1], 3) in esig for o in pr.origins(karg, dh))
@@ -434,6 +470,34 @@ def run(report, p):
     include_rules(report, p, 'c01', ['R1.1'], 'file digests feeding the directory hashes must cover the whole file')
     include_rules(report, p, 'c02', ['R2.1'], 'verify -dh walks the tree with the same traversal: the folder paths it yields are join(<start as given>, names), which the root-folder test compares with the start path')
     report.not_decided += ["that every change alters a directory hash (C07, collision resistance)", "verdicts for concrete trees"]
+
+
+def _signal_key(p, dh, st):
+    """the expression naming the format under which a failure-map update books the failure"""
+    if isinstance(st, ast.Assign):
+        for t in st.targets:
+            if isinstance(t, ast.Subscript):
+                return t.slice
+        return None
+    if isinstance(st, ast.Expr) and isinstance(st.value, ast.Call):
+        c = st.value
+        if isinstance(c.func, ast.Attribute) and c.func.attr in ("setdefault", "update") and c.args:
+            return c.args[0]
+        for t in [t for c2, ts in p.calls[dh.qual] if c2 is c for t in ts]:
+            hf = p.funcs.get(t)
+            if hf is None:
+                continue
+            if hf.outer is dh:
+                return c.args[0] if c.args else None
+            b = p.bind_args(hf, c)
+            # the parameter the helper uses as subscript key of the mapping parameter
+            for x in walk_no_nested(hf.node):
+                if isinstance(x, ast.Assign):
+                    for tt in x.targets:
+                        if isinstance(tt, ast.Subscript) and isinstance(tt.value, ast.Name) and isinstance(b.get(tt.value.id), ast.Name) and "fail" in b[tt.value.id].id and isinstance(tt.slice, ast.Name) and tt.slice.id in b:
+                            return b[tt.slice.id]
+        return c.args[0] if c.args else None
+    return None
 
 
 def _recorded_key_subscripts(p, pr, dh):
